@@ -138,6 +138,24 @@ CLAIMED = {
              "the budget oracle's constant (1500 lines/byte + 5000). Partial: the skeleton abstracts the loop bodies (they only matter "
              "through the stride); memory growth is bounded through the iteration count, not measured.",
         technique="Coq termination proof over regenerated loop skeletons + linear line-budget runs of the implementation"),
+    "C12": dict(
+        text="Machine-checked refinement proof (Coq): for ALL histories of READ/WRITE(10/12/16), WRITE SAME(10/16, incl. NDOB), SYNCHRONIZE "
+             "CACHE(10/16), READ CAPACITY(10/16) and INQUIRY requests with all LBAs (up to 2^64 for the 16-byte forms), transfer lengths, "
+             "block sizes, flag values and payloads the command forms can express, the stack facade -> opcode table -> constructor -> "
+             "transport -> target is transparent: the target (Spec/Target.v, written from SBC-3/SPC-4, decoding CDBs at the standards' "
+             "positions) ends with exactly the caller's data in exactly the addressed blocks, every READ returns the data last written to "
+             "each block, READ CAPACITY decodes to the target's geometry through the library's own tables, and SG_IO and iSCSI give the same "
+             "results. The facade action lists, opcode values, constructor IR and mask tables are REGENERATED from /repo on every run and each "
+             "command form is evaluated symbolically (all argument values at once) through the IR semantics inside the kernel. The same "
+             "histories are run through the real facade/devices over substituted sgio/iscsi modules backed by an independent Python target, "
+             "compared with the model and with a shadow map of last-written data.",
+        ref="DESIGN.md §4 C12",
+        note="Trusted: Coq kernel + vm_compute; translators (validated by reflection, constructor and facade correspondences); Spec/Target.v and "
+             "its Python twin tools/sim_target.py (my reading of SBC-3/SPC-4); hand model of the transport glue (wire/fill, tied by the stack "
+             "correspondence); the substituted bindings' contract. Partial: requests that a command form cannot express (e.g. LBA >= 2^32 in "
+             "READ(10)) are outside the theorem (the library truncates them silently); keyword flags are passed explicitly in the theorem, "
+             "defaulted forms are covered by the correspondence runs; WRITE SAME with 0 blocks is refused by the Spec target (WSNZ=1).",
+        technique="Coq refinement proof by symbolic evaluation of the regenerated stack + vm_compute correspondence against a simulated target"),
     "C10": dict(
         text="Machine-checked proof (Coq 8.16.1) of the codec laws for every buffer size, every contiguous mask at any "
              "alignment, every offset, every in-range value, every field order and arbitrary prior contents "
